@@ -136,15 +136,21 @@ func newParentController(
 		}
 	}()
 	for _, child := range cc.Spec.ChildResources {
-		childInformer, err := dynInformers.Resource(child.APIVersion, child.Resource)
-		if err != nil {
-			return nil, fmt.Errorf("can't create informer for child resource: %w", err)
-		}
 		groupVersion, err := schema.ParseGroupVersion(child.APIVersion)
 		if err != nil {
 			return nil, fmt.Errorf("can't parse child resource groupVersion: %w", err)
 		}
-		childInformers.Set(groupVersion.WithResource(child.Resource), childInformer)
+		childResource := groupVersion.WithResource(child.Resource)
+		if childInformers.Get(childResource) != nil {
+			// The same resource is listed more than once: keep the one informer
+			// we already have, a second one would never be closed.
+			continue
+		}
+		childInformer, err := dynInformers.Resource(child.APIVersion, child.Resource)
+		if err != nil {
+			return nil, fmt.Errorf("can't create informer for child resource: %w", err)
+		}
+		childInformers.Set(childResource, childInformer)
 	}
 
 	parentGroupVersion := schema.GroupVersion{Group: parentResource.Group, Version: parentResource.Version}
